@@ -162,8 +162,12 @@ type SrvReply struct {
 
 // LoaderScen drives configuration-history scenarios (C15 b/c, C16).
 type LoaderScen struct {
-	Steps []LoaderStep `json:"steps"`
-	Probe []string     `json:"probe,omitempty"` // addresses looked up between steps
+	// Watcher: the history goes through the reference server's file watcher: documents are
+	// written to files in the watched directory, change events are delivered to the watch
+	// loop and the (simulated) clock is advanced past its tick
+	Watcher bool         `json:"watcher,omitempty"`
+	Steps   []LoaderStep `json:"steps"`
+	Probe   []string     `json:"probe,omitempty"` // addresses looked up between steps
 }
 
 // LoaderStep is one document handed to a loader.
@@ -172,6 +176,11 @@ type LoaderStep struct {
 	Via   string `json:"via"`            // unmarshal | load
 	Tear  string `json:"tear,omitempty"` // "", short, stale-tail, empty, garbage
 	TearN int    `json:"tear_n,omitempty"`
+	// watcher histories: the document is written to the configured file ("") or to a
+	// sibling in the same directory whose name is the configured name plus this suffix
+	Sibling string `json:"sibling,omitempty"`
+	// NoEvent: the write is not followed by a change event (e.g. lost by the notifier)
+	NoEvent bool `json:"no_event,omitempty"`
 }
 
 // ---- body conversion to the model --------------------------------------------
